@@ -1,0 +1,27 @@
+//go:build verif
+
+package gateway
+
+import "go.sia.tech/core/types"
+
+// Thin wrappers that let an external verification harness drive the
+// unexported codec methods of RPC objects directly. Compiled only with
+// -tags verif.
+
+// VerifEncodeRequest exposes Object.encodeRequest.
+func VerifEncodeRequest(o Object, e *types.Encoder) { o.encodeRequest(e) }
+
+// VerifDecodeRequest exposes Object.decodeRequest.
+func VerifDecodeRequest(o Object, d *types.Decoder) { o.decodeRequest(d) }
+
+// VerifMaxRequestLen exposes Object.maxRequestLen.
+func VerifMaxRequestLen(o Object) int { return o.maxRequestLen() }
+
+// VerifEncodeResponse exposes Object.encodeResponse.
+func VerifEncodeResponse(o Object, e *types.Encoder) { o.encodeResponse(e) }
+
+// VerifDecodeResponse exposes Object.decodeResponse.
+func VerifDecodeResponse(o Object, d *types.Decoder) { o.decodeResponse(d) }
+
+// VerifMaxResponseLen exposes Object.maxResponseLen.
+func VerifMaxResponseLen(o Object) int { return o.maxResponseLen() }
